@@ -233,12 +233,16 @@ def check_case(case):
     dcombos = {a: v for a, v in combos} if combos else None
     dcases = [tuple(c) for c in cs] if cs else None
 
-    def make_farmer(root, f=f):
+    def make_farmer(root, f=f, stale=False):
         import copy
 
         # (each farmer gets private copies of the description)
+        rk = copy.deepcopy(rkw)
+        if stale:
+            # (an earlier session's description: an attribute more)
+            rk["attrs"] = dict(rk.get("attrs") or {}, stale="yes")
         r = xyz.Runner(f, fn_args=argnames if far != "sampler" else None,
-                       **copy.deepcopy(rkw))
+                       **rk)
         if far.startswith("harv"):
             eng = "joblib" if far == "harv-jl" else "h5netcdf"
             return xyz.Harvester(r, data_name=os.path.join(root, "data"),
@@ -346,7 +350,8 @@ def check_case(case):
             # sweep with an earlier version of the function, under the same
             # crop name; the function is then corrected and the crop sown
             # again from scratch
-            crop0 = make_farmer(d, f=f1).Crop(name="k", parent_dir=d, **kws)
+            crop0 = make_farmer(d, f=f1, stale=True).Crop(
+                name="k", parent_dir=d, **kws)
             if kind == "grid":
                 crop0.sow_combos(dcombos, verbosity=0)
             elif kind == "mix":
